@@ -85,6 +85,10 @@ Proof.
   destruct Hy as [t' [<- _]]. apply ziota_In in Hi'. apply key_lt_inst. lia.
 Qed.
 
+(* from_long_to_nested's column labels: `column_names` if passed, else the pivoted identifiers *)
+Definition names_or_sorted (cn : option (list name)) (nms : list name) : list name :=
+  match cn with Some l => l | None => sort_names nms end.
+
 Section LongPanel.
   Context {V : Type}.
   Variables (n c T : nat) (p : panel V) (nms : list name).
@@ -153,13 +157,20 @@ Section LongPanel.
     rewrite (transpose_involutive c T inst Hr). reflexivity.
   Qed.
 
+  (* the identifiers come back with the data they label: sorted, unless column_names is passed *)
   Lemma long_roundtrip cn :
     long_to_nested cn (mi_melt (mkM nms R)) =
-    mkN KSeries (names_or_default cn c) (sort_vars nms p).
+    mkN KSeries (names_or_sorted cn nms) (sort_vars nms p).
   Proof.
-    unfold long_to_nested. rewrite long_roundtrip_rows. unfold rename_cols. cbn [n_kind n_cols n_rows].
-    rewrite sorted_names_length. reflexivity.
+    unfold long_to_nested. rewrite long_roundtrip_rows. destruct cn; reflexivity.
   Qed.
+
+  Lemma sorted_names_NoDup : NoDup (sort_names nms).
+  Proof. apply (Permutation_NoDup (Permutation_sym (sort_names_perm nms Hnd))). exact Hnd. Qed.
+
+  (* sorting is idempotent: names and data that went through the long table once are fixed by it *)
+  Lemma sort_names_idem : sort_names (sort_names nms) = sort_names nms.
+  Proof. apply sort_names_of_sorted. apply sort_names_sorted. Qed.
 
   Lemma sort_vars_wf : wf_panel n c T (sort_vars nms p).
   Proof.
@@ -200,6 +211,17 @@ Section LongPanel.
   Qed.
 End LongPanel.
 
+Lemma sort_vars_idem {V} n c T (p : panel V) nms :
+  wf_panel n c T p -> NoDup nms -> length nms = c ->
+  sort_vars (sort_names nms) (sort_vars nms p) = sort_vars nms p.
+Proof.
+  intros Hwf Hnd Hc. apply (sort_vars_sorted n c T).
+  - apply sort_vars_wf; assumption.
+  - apply sorted_names_NoDup. exact Hnd.
+  - apply sorted_names_length; assumption.
+  - apply sort_names_sorted.
+Qed.
+
 (* ---------------------------------------------------------------------------------------------- *)
 (* canonical panel, renderings, canonical semantics of the conversions *)
 
@@ -239,7 +261,8 @@ Section Paths.
     | E_N_M, TN _ => Some (TM, c)
     | E_M_N k, TM => Some (TN k, c)
     | E_N_L, TN _ => Some (TL, c)
-    | E_L_N cn, TL => Some (TN KSeries, mkC cn (sort_vars (cnames c) (c_data c)))
+    | E_L_N cn, TL => Some (TN KSeries, mkC (Some (names_or_sorted cn (cnames c)))
+                                            (sort_vars (cnames c) (c_data c)))
     | E_N_T, TN _ => Some (TT, mkC None (c_data c))
     | E_A_T, TA => Some (TT, mkC None (c_data c))
     | E_T_N k, TT => Some (TN k, mkC (Some [NInt 0]) (flattenp (c_data c)))
@@ -328,11 +351,12 @@ Section Paths.
       + unfold nested_to_long. rewrite (nested_to_mi_eq n w T _ Hwf), Hmi. reflexivity.
       + intros t' c' H. inversion H; subst t' c'. exact Hc.
     - (* L > N *) rewrite Hk in He. split.
-      + rewrite Hmi, (long_roundtrip n w T _ _ Hwf Hnd Hl).
-        unfold cnames at 2, ncols_of. cbn [c_names c_data].
-        rewrite (wf_shape_cols n w T _ (sort_vars_wf n w T _ _ Hwf Hnd Hl)). reflexivity.
-      + intros t' c' H. inversion H; subst t' c'. exists n, w, T. split; [|exact He].
-        apply sort_vars_wf; assumption.
+      + rewrite Hmi, (long_roundtrip n w T _ _ Hwf Hnd Hl). reflexivity.
+      + intros t' c' H. inversion H; subst t' c'. exists n, w, T. split.
+        * apply sort_vars_wf; assumption.
+        * destruct cn as [l|]; [exact He|]. cbn [names_or_sorted]. split.
+          -- apply sorted_names_length; assumption.
+          -- apply sorted_names_NoDup. exact Hnd.
     - (* N > T *) split; [reflexivity|]. intros t' c' H. inversion H; subst t' c'. apply Hsame. exact I.
     - (* A > T *) split; [reflexivity|]. intros t' c' H. inversion H; subst t' c'. apply Hsame. exact I.
     - (* T > N *) split.
@@ -412,54 +436,102 @@ Section Paths.
 
   (* --- names --- *)
 
-  (* tag and names part of [sem]: it does not look at the data *)
-  Definition nsem (e : edge) (s : tag * option (list name)) : option (tag * option (list name)) :=
-    let '(t, nm) := s in
+  (* tag part of [sem] *)
+  Definition tstep (e : edge) (t : tag) : option tag :=
     match e, t with
-    | E_N_A, TN _ => Some (TA, None)
-    | E_A_N cn k, TA => Some (TN k, cn)
-    | E_A_M cn, TA => Some (TM, cn)
-    | E_M_A, TM => Some (TA, None)
-    | E_N_M, TN _ => Some (TM, nm)
-    | E_M_N k, TM => Some (TN k, nm)
-    | E_N_L, TN _ => Some (TL, nm)
-    | E_L_N cn, TL => Some (TN KSeries, cn)
-    | E_N_T, TN _ => Some (TT, None)
-    | E_A_T, TA => Some (TT, None)
-    | E_T_N k, TT => Some (TN k, Some [NInt 0])
-    | E_CheckX a b, TN k => if a && b then None else Some (if a then (TA, None) else (TN k, nm))
-    | E_CheckX a b, TA =>
-        if a && b then None else Some (if b then (TN KSeries, None) else (TA, nm))
+    | E_N_A, TN _ => Some TA
+    | E_A_N _ k, TA => Some (TN k)
+    | E_A_M _, TA => Some TM
+    | E_M_A, TM => Some TA
+    | E_N_M, TN _ => Some TM
+    | E_M_N k, TM => Some (TN k)
+    | E_N_L, TN _ => Some TL
+    | E_L_N _, TL => Some (TN KSeries)
+    | E_N_T, TN _ => Some TT
+    | E_A_T, TA => Some TT
+    | E_T_N k, TT => Some (TN k)
+    | E_CheckX a b, TN k => if a && b then None else Some (if a then TA else TN k)
+    | E_CheckX a b, TA => if a && b then None else Some (if b then TN KSeries else TA)
     | _, _ => None
     end.
 
-  Fixpoint nsem_path (es : list edge) (s : tag * option (list name)) :=
+  (* tag, names and number-of-columns part of [sem]: it does not look at the values *)
+  Definition nstate := (tag * option (list name) * nat)%type.
+
+  Definition nsem (e : edge) (s : nstate) : option nstate :=
+    let '(t, nm, k) := s in
+    match e, t with
+    | E_N_A, TN _ => Some (TA, None, k)
+    | E_A_N cn kd, TA => Some (TN kd, cn, k)
+    | E_A_M cn, TA => Some (TM, cn, k)
+    | E_M_A, TM => Some (TA, None, k)
+    | E_N_M, TN _ => Some (TM, nm, k)
+    | E_M_N kd, TM => Some (TN kd, nm, k)
+    | E_N_L, TN _ => Some (TL, nm, k)
+    | E_L_N cn, TL => Some (TN KSeries, Some (names_or_sorted cn (names_or_default nm k)), k)
+    | E_N_T, TN _ => Some (TT, None, k)
+    | E_A_T, TA => Some (TT, None, k)
+    | E_T_N kd, TT => Some (TN kd, Some [NInt 0], 1%nat)
+    | E_CheckX a b, TN kd =>
+        if a && b then None else Some (if a then (TA, None, k) else (TN kd, nm, k))
+    | E_CheckX a b, TA =>
+        if a && b then None else Some (if b then (TN KSeries, None, k) else (TA, nm, k))
+    | _, _ => None
+    end.
+
+  Fixpoint nsem_path (es : list edge) (s : nstate) : option nstate :=
     match es with
     | [] => Some s
     | e :: es' => match nsem e s with Some s' => nsem_path es' s' | None => None end
     end.
 
-  Lemma sem_nsem e t c t' c' :
-    sem e (t, c) = Some (t', c') -> nsem e (t, c_names c) = Some (t', c_names c').
+  Lemma sem_tstep e t c t' c' : sem e (t, c) = Some (t', c') -> tstep e t = Some t'.
   Proof.
     destruct e, t; cbn; try discriminate; intro H; try (inversion H; subst; reflexivity).
     - destruct (to_np && to_pd); [discriminate|]. destruct to_np; inversion H; reflexivity.
     - destruct (to_np && to_pd); [discriminate|]. destruct to_pd; inversion H; reflexivity.
   Qed.
 
-  Lemma sem_path_nsem es t c t' c' :
-    sem_path es (t, c) = Some (t', c') -> nsem_path es (t, c_names c) = Some (t', c_names c').
+  Lemma sorted_panel_ncols n k T (p : panel V) nms :
+    wf_panel n k T p -> NoDup nms -> length nms = k -> shape_cols (sort_vars nms p) = k.
   Proof.
-    revert t c. induction es as [|e es IH]; intros t c H.
-    - inversion H. reflexivity.
-    - cbn [sem_path] in H. destruct (sem e (t, c)) as [[t1 c1]|] eqn:E; [|discriminate].
-      cbn [nsem_path]. rewrite (sem_nsem e t c t1 c1 E). apply IH. exact H.
+    intros Hwf Hnd Hl. apply (wf_shape_cols n k T). apply sort_vars_wf; assumption.
   Qed.
 
-  (* the conversions that hand the column names over to the container they produce *)
+  Lemma sem_nsem e t c t' c' :
+    cwf c -> sem e (t, c) = Some (t', c') ->
+    nsem e (t, c_names c, ncols_of c) = Some (t', c_names c', ncols_of c').
+  Proof.
+    intros Hc. destruct (cwf_facts c Hc) as [n [w [T [Hwf [Hk [Hl Hnd]]]]]].
+    destruct e, t; cbn [sem nsem]; try discriminate; intro H;
+      try (inversion H; subst; reflexivity).
+    - (* L > N *) inversion H; subst t' c'. cbn [c_names]. unfold ncols_of at 2. cbn [c_data].
+      rewrite (sorted_panel_ncols n w T _ _ Hwf Hnd Hl), Hk. reflexivity.
+    - (* T > N *) inversion H; subst t' c'. cbn [c_names]. unfold ncols_of at 1. cbn [c_data].
+      rewrite (wf_shape_cols n 1 (w * T) _ (flattenp_wf n w T _ Hwf)). reflexivity.
+    - destruct (to_np && to_pd); [discriminate|]. destruct to_np; inversion H; reflexivity.
+    - destruct (to_np && to_pd); [discriminate|]. destruct to_pd; inversion H; reflexivity.
+  Qed.
+
+  Lemma sem_path_nsem es t c t' c' :
+    cwf c -> path_ok es (t, c) -> sem_path es (t, c) = Some (t', c') ->
+    nsem_path es (t, c_names c, ncols_of c) = Some (t', c_names c', ncols_of c').
+  Proof.
+    revert t c. induction es as [|e es IH]; intros t c Hc Hp H.
+    - inversion H. reflexivity.
+    - cbn [path_ok snd] in Hp. destruct Hp as [He Hp]. cbn [sem_path] in H.
+      destruct (edge_factor e t c Hc He) as [_ H2].
+      destruct (sem e (t, c)) as [[t1 c1]|] eqn:E; [|discriminate].
+      cbn [nsem_path]. rewrite (sem_nsem e t c t1 c1 Hc E).
+      apply IH; [apply (H2 t1 c1); reflexivity|exact Hp|exact H].
+  Qed.
+
+  (* the conversions that hand the column names over to the container they produce: nested <->
+     multi-index, nested -> long, long -> nested without `column_names` (the identifiers the long
+     table carries come back, in sorted order), and check_X when it does not convert *)
   Definition carries (e : edge) (t : tag) : bool :=
     match e, t with
-    | E_N_M, TN _ | E_M_N _, TM | E_N_L, TN _ => true
+    | E_N_M, TN _ | E_M_N _, TM | E_N_L, TN _ | E_L_N None, TL => true
     | E_CheckX a b, TN _ => negb a
     | E_CheckX a b, TA => negb b
     | _, _ => false
@@ -469,30 +541,73 @@ Section Paths.
     match es with
     | [] => true
     | e :: es' => carries e t &&
-                  match nsem e (t, None) with Some (t', _) => all_carry es' t' | None => true end
+                  match tstep e t with Some t' => all_carry es' t' | None => true end
     end.
 
-  Lemma nsem_tag e t nm1 nm2 t1 r1 :
-    nsem e (t, nm1) = Some (t1, r1) -> exists r2, nsem e (t, nm2) = Some (t1, r2).
+  Definition is_long_to_nested (e : edge) : bool :=
+    match e with E_L_N _ => true | _ => false end.
+  Definition through_long (es : list edge) : bool := existsb is_long_to_nested es.
+
+  (* the panel with its variables - names together with their data - in identifier order *)
+  Definition sorted_panel (c : cpanel) : cpanel :=
+    mkC (Some (sort_names (cnames c))) (sort_vars (cnames c) (c_data c)).
+
+  Lemma sorted_panel_cwf c : cwf c -> cwf (sorted_panel c).
+  Proof.
+    intro Hc. destruct (cwf_facts c Hc) as [n [w [T [Hwf [Hk [Hl Hnd]]]]]].
+    exists n, w, T. cbn [sorted_panel c_data c_names]. split.
+    - apply sort_vars_wf; assumption.
+    - split; [apply sorted_names_length; assumption|apply sorted_names_NoDup; exact Hnd].
+  Qed.
+
+  Lemma sorted_panel_idem c : cwf c -> sorted_panel (sorted_panel c) = sorted_panel c.
+  Proof.
+    intro Hc. destruct (cwf_facts c Hc) as [n [w [T [Hwf [Hk [Hl Hnd]]]]]].
+    unfold sorted_panel at 1. unfold cnames. cbn [sorted_panel c_names c_data names_or_default].
+    rewrite sort_names_idem, (sort_vars_idem n w T _ _ Hwf Hnd Hl). reflexivity.
+  Qed.
+
+  (* a name-carrying conversion returns the panel itself, long -> nested the sorted panel *)
+  Lemma carry_step e t c t' c' :
+    carries e t = true -> sem e (t, c) = Some (t', c') ->
+    c' = if is_long_to_nested e then sorted_panel c else c.
+  Proof.
+    destruct e as [| | | | | | |[l|]| | | |], t; cbn; try discriminate; intros _ H;
+      try (inversion H; subst; reflexivity).
+    - destruct to_np; [discriminate|]. cbn in H. inversion H. reflexivity.
+    - destruct to_pd; [discriminate|]. rewrite andb_false_r in H. inversion H. reflexivity.
+  Qed.
+
+  Lemma names_and_data_survive es t c t' c' :
+    cwf c -> all_carry es t = true -> sem_path es (t, c) = Some (t', c') ->
+    c' = if through_long es then sorted_panel c else c.
+  Proof.
+    revert t c. induction es as [|e es IH]; intros t c Hc Ha H.
+    - inversion H. reflexivity.
+    - cbn [all_carry] in Ha. apply andb_true_iff in Ha. destruct Ha as [Ha1 Ha2].
+      cbn [sem_path] in H. destruct (sem e (t, c)) as [[t1 c1]|] eqn:E; [|discriminate].
+      rewrite (sem_tstep e t c t1 c1 E) in Ha2.
+      pose proof (carry_step e t c t1 c1 Ha1 E) as Hc1.
+      cbn [through_long existsb]. fold (through_long es).
+      destruct (is_long_to_nested e); cbn [orb]; subst c1.
+      + rewrite (IH t1 _ (sorted_panel_cwf c Hc) Ha2 H).
+        destruct (through_long es); [apply sorted_panel_idem; exact Hc|reflexivity].
+      + apply (IH t1 c Hc Ha2 H).
+  Qed.
+
+  Lemma nsem_tag e t nm1 nm2 k t1 r1 k1 :
+    nsem e (t, nm1, k) = Some (t1, r1, k1) -> exists r2, nsem e (t, nm2, k) = Some (t1, r2, k1).
   Proof.
     destruct e, t; cbn; try discriminate; intro H; try (inversion H; subst; eexists; reflexivity).
     - destruct (to_np && to_pd); [discriminate|]. destruct to_np; inversion H; eexists; reflexivity.
     - destruct (to_np && to_pd); [discriminate|]. destruct to_pd; inversion H; eexists; reflexivity.
   Qed.
 
-  Lemma nsem_carries e t nm t1 r1 :
-    carries e t = true -> nsem e (t, nm) = Some (t1, r1) -> r1 = nm.
+  Lemma nsem_not_carries e t nm1 nm2 k t1 r1 k1 t2 r2 k2 :
+    carries e t = false ->
+    nsem e (t, nm1, k) = Some (t1, r1, k1) -> nsem e (t, nm2, k) = Some (t2, r2, k2) -> r1 = r2.
   Proof.
-    destruct e, t; cbn; try discriminate; intros Hc H; try (inversion H; subst; reflexivity).
-    - destruct to_np; [discriminate|]. cbn in H. inversion H. reflexivity.
-    - destruct to_pd; [discriminate|]. rewrite andb_false_r in H. inversion H. reflexivity.
-  Qed.
-
-  Lemma nsem_not_carries e t nm1 nm2 t1 r1 t2 r2 :
-    carries e t = false -> nsem e (t, nm1) = Some (t1, r1) -> nsem e (t, nm2) = Some (t2, r2) ->
-    r1 = r2.
-  Proof.
-    destruct e, t; cbn; try discriminate; intros Hc H1 H2;
+    destruct e as [| | | | | | |[l|]| | | |], t; cbn; try discriminate; intros Hc H1 H2;
       try (inversion H1; inversion H2; subst; reflexivity).
     - destruct to_np; [|discriminate]. destruct to_pd; cbn in *; [discriminate|].
       inversion H1; inversion H2; subst; reflexivity.
@@ -500,46 +615,64 @@ Section Paths.
       inversion H1; inversion H2; subst; reflexivity.
   Qed.
 
-  Lemma names_survive_n es t nm t' r :
-    all_carry es t = true -> nsem_path es (t, nm) = Some (t', r) -> r = nm.
-  Proof.
-    revert t. induction es as [|e es IH]; intros t Ha H.
-    - inversion H. reflexivity.
-    - cbn [all_carry] in Ha. apply andb_true_iff in Ha. destruct Ha as [Ha1 Ha2].
-      cbn [nsem_path] in H. destruct (nsem e (t, nm)) as [[t1 r1]|] eqn:E; [|discriminate].
-      destruct (nsem_tag e t nm None t1 r1 E) as [r0 E0]. rewrite E0 in Ha2.
-      rewrite (nsem_carries e t nm t1 r1 Ha1 E) in H. apply (IH t1 Ha2 H).
-  Qed.
-
-  Lemma names_forgotten_n es t nm1 nm2 t1 r1 t2 r2 :
+  Lemma names_forgotten_n es t nm1 nm2 k t1 r1 k1 t2 r2 k2 :
     all_carry es t = false ->
-    nsem_path es (t, nm1) = Some (t1, r1) -> nsem_path es (t, nm2) = Some (t2, r2) -> r1 = r2.
+    nsem_path es (t, nm1, k) = Some (t1, r1, k1) -> nsem_path es (t, nm2, k) = Some (t2, r2, k2) ->
+    r1 = r2.
   Proof.
-    revert t nm1 nm2. induction es as [|e es IH]; intros t nm1 nm2 Ha H1 H2; [discriminate|].
+    revert t nm1 nm2 k. induction es as [|e es IH]; intros t nm1 nm2 k Ha H1 H2; [discriminate|].
     cbn [all_carry] in Ha. cbn [nsem_path] in H1, H2.
-    destruct (nsem e (t, nm1)) as [[ta ra]|] eqn:E1; [|discriminate].
-    destruct (nsem e (t, nm2)) as [[tb rb]|] eqn:E2; [|discriminate].
-    destruct (nsem_tag e t nm1 nm2 ta ra E1) as [rb' E2']. rewrite E2 in E2'.
-    inversion E2'; subst tb rb'. clear E2'.
-    destruct (nsem_tag e t nm1 None ta ra E1) as [r0 E0]. rewrite E0 in Ha.
+    destruct (nsem e (t, nm1, k)) as [[[ta ra] ka]|] eqn:E1; [|discriminate].
+    destruct (nsem e (t, nm2, k)) as [[[tb rb] kb]|] eqn:E2; [|discriminate].
+    destruct (nsem_tag e t nm1 nm2 k ta ra ka E1) as [rb' E2']. rewrite E2 in E2'.
+    inversion E2'; subst tb rb' kb. clear E2'.
+    assert (Ht : tstep e t = Some ta).
+    { clear -E1. destruct e, t; cbn in *; try discriminate; try (inversion E1; reflexivity).
+      - destruct (to_np && to_pd); [discriminate|]. destruct to_np; inversion E1; reflexivity.
+      - destruct (to_np && to_pd); [discriminate|]. destruct to_pd; inversion E1; reflexivity. }
+    rewrite Ht in Ha.
     destruct (carries e t) eqn:Ec.
     - cbn [andb] in Ha. eapply IH; eassumption.
-    - rewrite (nsem_not_carries e t nm1 nm2 ta ra ta rb Ec E1 E2) in H1.
+    - rewrite (nsem_not_carries e t nm1 nm2 k ta ra ka ta rb ka Ec E1 E2) in H1.
       rewrite H1 in H2. inversion H2. reflexivity.
   Qed.
 
-  (* names survive a path iff every conversion on it carries them: if all do, the names at the
-     end are the names at the start; if one does not, the names at the end are the same whatever
-     names the start had *)
+  (* names survive a path iff every conversion on it carries them: if all do, the end container
+     shows the start panel itself - same names on the same data - or, when the path went through
+     the long table, that panel with its variables (names together with their data) in the order of
+     the sorted identifiers; if one does not, the names at the end are the same whatever names the
+     start had (for a panel with as many columns) *)
   Theorem names_survive_iff_carried es t c t' c' :
-    sem_path es (t, c) = Some (t', c') ->
-    (all_carry es t = true -> c_names c' = c_names c) /\
+    cwf c -> path_ok es (t, c) -> sem_path es (t, c) = Some (t', c') ->
+    (all_carry es t = true -> c' = if through_long es then sorted_panel c else c) /\
     (all_carry es t = false ->
-     forall c2 t2 c2', sem_path es (t, c2) = Some (t2, c2') -> c_names c2' = c_names c').
+     forall c2 t2 c2', cwf c2 -> path_ok es (t, c2) -> ncols_of c2 = ncols_of c ->
+       sem_path es (t, c2) = Some (t2, c2') -> c_names c2' = c_names c').
   Proof.
-    intro H. apply sem_path_nsem in H. split.
-    - intro Ha. eapply names_survive_n; eassumption.
-    - intros Ha c2 t2 c2' H2. apply sem_path_nsem in H2.
-      eapply names_forgotten_n; eassumption.
+    intros Hc Hp H. split.
+    - intro Ha. eapply names_and_data_survive; eassumption.
+    - intros Ha c2 t2 c2' Hc2 Hp2 Hn H2.
+      apply (sem_path_nsem es t c t' c' Hc Hp) in H.
+      apply (sem_path_nsem es t c2 t2 c2' Hc2 Hp2) in H2. rewrite Hn in H2.
+      symmetry. eapply names_forgotten_n; eassumption.
   Qed.
 End Paths.
+
+(* ---------------------------------------------------------------------------------------------- *)
+(* after nested -> long -> nested every identifier still labels its own data *)
+
+Lemma pick_select {A} s nms (xs : list A) d :
+  NoDup nms -> NoDup s -> length nms = length xs -> (forall d', In d' s -> In d' nms) ->
+  In d s -> pick d s (select s nms xs) = pick d nms xs.
+Proof.
+  intros Hnd Hs Hl. induction Hs as [|d0 s Hn0 Hs IH]; intros Hin Hd; [destruct Hd|].
+  rewrite select_cons.
+  pose proof (pick_length_1 d0 nms xs Hnd Hl (Hin d0 (or_introl eq_refl))) as H1.
+  destruct (pick d0 nms xs) as [|x0 [|? ?]] eqn:E0; try discriminate. cbn [app].
+  rewrite pick_cons. destruct (name_eqb d0 d) eqn:E.
+  - apply name_eqb_eq in E. subst d0. rewrite pick_absent.
+    + rewrite E0. reflexivity.
+    + exact Hn0.
+  - cbn [app]. apply name_eqb_neq in E. destruct Hd as [Hd|Hd]; [congruence|].
+    apply IH; [intros d' Hd'; apply Hin; right; exact Hd'|exact Hd].
+Qed.
